@@ -374,10 +374,58 @@ fn gen_per_element() -> BoxedStrategy<Value> {
     per_element_cases(rules::rooted(cfg), prop_oneof![2 => gen::data_docs(), 1 => arith_values()].boxed())
 }
 
+
+// numeric strings of exactly 255 ... 65537 characters (common::SIZE_EDGES) whose value is small: leading zeros,
+// surrounding white space, zeros in the exponent, a long run of fraction zeros, radix literals with leading zeros
+const KINDS: u64 = 8;
+fn check_sizes(case: &Value, obs: &mut Obs) -> Result<(), String> {
+    let n = case["n"].as_u64().unwrap_or(1) as usize;
+    let k = case["k"].as_u64().unwrap_or(0);
+    let s = match k {
+        0 => format!("{}7", "0".repeat(n - 1)),
+        1 => format!("{}7", " ".repeat(n - 1)),
+        2 => format!("7{}", "\u{00a0}".repeat(n - 1)),
+        3 => format!("1e{}5", "0".repeat(n - 3)),
+        4 => format!("0.{}1", "0".repeat(n - 3)),
+        5 => format!("0x{}f", "0".repeat(n - 3)),
+        6 => format!("-{}.5", "0".repeat(n - 3)),
+        _ => format!("7{}", "0".repeat(n - 1)),
+    };
+    let data = json!({"s": s});
+    let vs = json!({"var": "s"});
+    let label = format!("size kind {} n {}", k, if n < 1000 { "~2^8" } else if n < 10000 { "~2^12" } else { "~2^16" });
+    for rule in [json!({"-": [vs.clone(), 0]}), json!({"+": [vs.clone()]}), json!({"*": [s.clone(), 2]}), json!({"==": [vs.clone(), 7]}), json!({"<": [vs.clone(), 8]}), json!({"max": [1, vs.clone()]})] {
+        size_case(&rule, &data, obs, &label)?;
+    }
+    Ok(())
+}
+
+fn fixed_sizes() -> Vec<Value> {
+    let mut out = vec![];
+    for n in SIZE_EDGES {
+        for k in 0..KINDS {
+            out.push(json!({"n": n, "k": k}));
+        }
+    }
+    out
+}
+
 pub fn property() -> Property {
     Property {
         id: "C10",
         subs: vec![
+            Sub {
+                name: "size_boundaries",
+                about: "numeric strings of exactly 255 / 256 / 257, 4095 / 4096 / 4097 and 65535 / 65536 / 65537 characters whose value is small or overflows - leading zeros, leading blanks, trailing no-break spaces, zeros in the exponent, a long run of fraction zeros, a radix literal with leading zeros, a negative fraction, 7 followed by n zeros (not finite: an error) - through - + * max and the == and < routes, against the reference model.",
+                nontrivial: "every case.",
+                strategy: None,
+                fixed: Some(fixed_sizes),
+                fixed_exhaustive: true,
+                check: check_sizes,
+                quick: 0,
+                thorough: 0,
+                small_stack: false,
+            },
             Sub {
                 name: "fuzz_corpus_replay",
                 about: "every committed corpus input and saved artifact of the libFuzzer target fz_arith - one application of + - * / % min max whose operands are written by the fuzzer as text lines (a line that parses as JSON is that value, any other line is a raw string such as ` 0x1F ` or `12px`; operands literal or through var) - replayed through the target's own body against the reference model; the committed corpus is the coverage-distinct set distilled from campaigns on the unchanged tree, so each input reaches a different piece of the implementation. The thorough tier additionally runs the coverage-guided campaign.",
